@@ -34,7 +34,7 @@ class C02(Check):
     anchors = [("pox/openflow/of_01.py", 896, 950), ("pox/datapaths/switch.py", 1119, 1174), ("pox/lib/ioworker/__init__.py", 204, 226)]
     trusted_base = ["model Model/Framing.lean hand-written from of_01.Connection.read and OFConnection.read; tied by this correspondence run",
                     "decoder abstracted as U (consumes exactly a well-formed message: that is C01); the driver instantiates U with the length-driven slice decoder (theorem slice_framing)"]
-    assumptions = ["chunks are never empty (an empty recv is end-of-stream in the real code)", "recv never returns more than the 2048 bytes asked for"]
+    assumptions = ["message handlers do not disconnect the connection in the middle of a read (then Connection.read stops dispatching: that path is C09's)", "chunks are never empty (an empty recv is end-of-stream in the real code)", "recv never returns more than the 2048 bytes asked for"]
     design_ref = "DESIGN.md §5 C02"
     technique = "Lean 4 proof (induction over the chunk list with a message-boundary invariant) + differential correspondence of the model driver against Connection.read / OFConnection.read"
     level_text = ("Theorems ctl_framing/ctl_prefix/sw_framing/sw_prefix: for every decoder that consumes exactly a well-formed message, every message list and "
